@@ -53,7 +53,10 @@ class Spec(SeqSpec):
         self.max_variants = 2
 
     def roots(self):
-        r = [('small-target', {'pack_size_target': 25}, [])]
+        r = [('small-target', {'pack_size_target': 25}, []),
+             # pack 0 filled to *exactly* the target (12 + 16 bytes), pack 1 exists: a later writer must never go back to pack 0
+             ('exact-fill-d3', {'pack_size_target': 28}, [('topack', (1, 2), False, False, True), ('topack', (0,), False, False, True)],
+              {'depth': 3, 'max_variants': 1})]
         if self.tier != 'quick':
             shallow = {'depth': 3, 'max_variants': 3}
             r.append(('big-target-d3v3', {'pack_size_target': 4 * 1024 ** 3}, [], shallow))
